@@ -25,6 +25,7 @@ CHILD = {None: 'JNone', 'failure': 'JFailure', 'error': 'JError'}
 
 
 def gen_tables(ctx):
+    common.source_tie('C16')
     from exactly_lib.test_suite import processing, structure
     from exactly_lib.test_suite.reporters import junit, simple_progress_reporter
     from exactly_lib.processing import test_case_processing as tcp
